@@ -717,7 +717,7 @@ impl Node {
             }
             tracing::trace!("Message sent to rex");
             #[cfg(edp_rs_verif)]
-            edp_client::verif::sched_point("rpc::request_written").await;
+            edp_client::verif::sched_hold("rpc::request_written").await;
         } else {
             tracing::error!("No connection found for node: {}", remote_node);
             self.pending_rpcs.remove(&pid_str);
